@@ -113,7 +113,28 @@ func core2BuildNamed(a []string) (*ir.Module, map[string]*types.StructType) {
 			// `Whole.kGLead` (linkage 0-8, preemption 9-10, visibility 11-13, DLL storage class 14-15, thread-local model 16-19, unnamed_addr 20-21,
 			// externally_initialized 22)
 			kind, lead, _ := strings.Cut(f[1], "~")
+			lead, gtail, _ := strings.Cut(lead, "~")
 			g.Immutable = kind == "c"
+			// the clauses behind the initializer: `s<hex>` section, `p<hex>` partition, `l<n>` align, joined by `;`
+			for _, c := range strings.Split(gtail, ";") {
+				if c == "" {
+					continue
+				}
+				switch c[0] {
+				case 's':
+					g.Section = string(unhexArg(c[1:]))
+				case 'p':
+					g.Partition = string(unhexArg(c[1:]))
+				case 'l':
+					n, err := strconv.ParseUint(c[1:], 10, 64)
+					if err != nil {
+						panic("harness: bad global clause " + c)
+					}
+					g.Align = ir.Align(n)
+				default:
+					panic("harness: bad global clause " + c)
+				}
+			}
 			if lead != "" {
 				for _, ps := range strings.Split(lead, ",") {
 					i, err := strconv.Atoi(ps)
